@@ -238,7 +238,7 @@ class Element:
                 forged_bp = _subelementBuilder(bp, SR, durs)
                 outdict[channel] = forged_bp
                 if "flags" in signal.keys():
-                    outdict[channel]["flags"] = signal["flags"]
+                    outdict[channel]["flags"] = np.array(signal["flags"])
                 if not includetime:
                     outdict[channel].pop("time")
                     outdict[channel].pop("newdurations")
